@@ -23,13 +23,13 @@
    a sub-kustomization; the directory name of a kustomization is carried as an uninterpreted label ([PDir name])
    so that relocation can be stated (PIPE_relocate); no function reads it.
 
-   Out of scope (absent from the syntax; other properties cover them): patches (SMP, JSON-6902), images, replicas,
+   Out of scope (absent from the syntax; other properties cover them): patches (SMP, JSON-6902),
    replacements, vars, components, `configurations:`/`crds:`, helm, external plugins, `immutable`, file /
    env sources and binary (non UTF-8) values of generators, `buildMetadata`, custom openapi schemas, `kind: List`
    documents, documents that already carry internal.config.kubernetes.io
    build annotations.  Definitions only; proofs are in Res/PipelineProofs.v. *)
 From KV Require Export Res.BuildRefs.
-From KV Require Res.Labels Res.LabelsDefaults Res.Namespace Res.Hygiene Res.Generators Res.LegacySort.
+From KV Require Res.Labels Res.LabelsDefaults Res.Namespace Res.Hygiene Res.Generators Res.LegacySort Res.Replica Res.Image.
 From KV Require Export Gen.FieldSpecs Gen.NameRefRules Gen.NsScope Gen.TransformerOrder.
 From KV Require Gen.LegacyOrder.
 Local Open Scope string_scope.
@@ -59,7 +59,7 @@ Record pgopts := mkPGopts {
 }.
 
 (* the directives of one kustomization file *)
-Record pdirs := mkPDirsG {
+Record pdirs := mkPDirsX {
   pd_ns : string;                             (* namespace: *)
   pd_prefix : string;                         (* namePrefix: *)
   pd_suffix : string;                         (* nameSuffix: *)
@@ -68,10 +68,13 @@ Record pdirs := mkPDirsG {
   pd_common_annos : pairs;                    (* commonAnnotations: *)
   pd_cmgens : list pgen;                      (* configMapGenerator: *)
   pd_secgens : list pgen;                     (* secretGenerator: *)
-  pd_genopts : option pgopts                  (* generatorOptions: (None: absent) *)
+  pd_genopts : option pgopts;                 (* generatorOptions: (None: absent) *)
+  pd_replicas : list Replica.replica;         (* replicas: (name, count as decimal text) *)
+  pd_images : list Image.image                (* images: *)
 }.
 
-(* a kustomization file without generatorOptions *)
+(* a kustomization file without replicas / images, and without generatorOptions *)
+Definition mkPDirsG ns p s l cl ca cm sec go : pdirs := mkPDirsX ns p s l cl ca cm sec go [] [].
 Definition mkPDirs ns p s l cl ca cm sec : pdirs := mkPDirsG ns p s l cl ca cm sec None.
 
 Inductive ptree :=
@@ -98,10 +101,10 @@ Definition pipe_rules : res (list nbr) :=
 (* the builtin transformers this model implements; the others of the generated order have no directive
    in the syntax and are therefore never configured *)
 Definition modelled_transformers : list string :=
-  ["NamespaceTransformer"; "PrefixTransformer"; "SuffixTransformer"; "LabelTransformer"; "AnnotationsTransformer"].
+  ["NamespaceTransformer"; "PrefixTransformer"; "SuffixTransformer"; "LabelTransformer"; "AnnotationsTransformer";
+   "ReplicaCountTransformer"; "ImageTagTransformer"].
 Definition unmodelled_transformers : list string :=
-  ["PatchStrategicMergeTransformer"; "PatchTransformer"; "PatchJson6902Transformer"; "ReplicaCountTransformer";
-   "ImageTagTransformer"; "ReplacementTransformer"].
+  ["PatchStrategicMergeTransformer"; "PatchTransformer"; "PatchJson6902Transformer"; "ReplacementTransformer"].
 
 (* obligation Gen_transformer_order_known: every element of the generated order is classified, no repeats *)
 Definition transformer_order_known_b : bool :=
@@ -360,6 +363,64 @@ Section Pipeline.
     | (p, fss) :: t => do m' <- label_transform p fss m; label_transforms t (drop_empties m')
     end.
 
+  (* ReplicaCountTransformerPlugin.Transform (one plugin per `replicas:` entry, field specs tc.Replicas): per field
+     spec the resources matched by ANY id (name + Gvk.IsSelected) are collected first, then the filter
+     (Res/Replica.replica_filter) runs on each; an entry that matches nothing is an error *)
+  Definition replica_hits (rp : Replica.replica) (fs : fieldspec) (r : resource) : res bool :=
+    if nil_or_empty (r_node r) then Ok false else
+    do prev <- prev_ids r;
+    Ok (existsb (fun id => String.eqb (id_name id) (Replica.rp_name rp) && gvk_is_selected (id_gvk id) (fsgvk fs))
+                (prev ++ [cur_id pipe_cs r])%list).
+
+  Fixpoint replica_apply (rp : Replica.replica) (fs : fieldspec) (m : list resource) (hits : list bool)
+    : res (list resource) :=
+    match m, hits with
+    | r :: t, h :: ht =>
+        do r' <- (if h then do n <- Replica.replica_filter rp fs (r_node r); Ok (with_node r n) else Ok r);
+        do t' <- replica_apply rp fs t ht;
+        Ok (r' :: t')
+    | _, _ => Ok m
+    end.
+
+  Fixpoint replica_loop (rp : Replica.replica) (fss : list fieldspec) (found : bool) (m : list resource)
+    : res (bool * list resource) :=
+    match fss with
+    | [] => Ok (found, m)
+    | fs :: t =>
+        do hits <- mapM (replica_hits rp fs) m;
+        do m' <- replica_apply rp fs m hits;
+        replica_loop rp t (found || existsb (fun b => b) hits) m'
+    end.
+
+  Definition replica_transform (rp : Replica.replica) (m : list resource) : res (list resource) :=
+    do r <- replica_loop rp gen_replicas_fs false m;
+    if fst r then Ok (snd r) else Err.
+
+  Fixpoint replicas_transform (rps : list Replica.replica) (m : list resource) : res (list resource) :=
+    match rps with
+    | [] => Ok m
+    | rp :: t => do m' <- replica_transform rp m; replicas_transform t (drop_empties m')
+    end.
+
+  (* ImageTagTransformerPlugin.Transform (one plugin per `images:` entry, field specs tc.Images): the legacy filter
+     over every resource, then the field-spec filter over every resource (Res/Image.v).  The compiled pattern is the
+     one the code builds for the (quoted) entry name: [Image.img_re], the shape C10 checks against Go's parser. *)
+  Definition img_parse (name : string) (pat : string) : option Regex.re :=
+    match Image.img_pattern name with
+    | Some p => if String.eqb p pat then Some (Image.img_re name) else None
+    | None => None
+    end.
+
+  Definition image_transform (im : Image.image) (m : list resource) : res (list resource) :=
+    do m1 <- map_nodes (Image.legacy_filter (img_parse (Image.im_name im)) im) m;
+    map_nodes (Image.image_fs_filter (img_parse (Image.im_name im)) im gen_images_fs) m1.
+
+  Fixpoint images_transform (ims : list Image.image) (m : list resource) : res (list resource) :=
+    match ims with
+    | [] => Ok m
+    | im :: t => do m' <- image_transform im m; images_transform t (drop_empties m')
+    end.
+
   Definition label_dirs (d : pdirs) : Labels.dirs :=
     Labels.mkDirs (pd_labels d) (pd_common_labels d) (pd_common_annos d).
 
@@ -374,6 +435,8 @@ Section Pipeline.
       do lts <- Labels.label_transformers LabelsDefaults.default_tc (label_dirs d); label_transforms lts m
     else if String.eqb k "AnnotationsTransformer" then
       label_transform (pd_common_annos d) gen_common_annotations_fs m
+    else if String.eqb k "ReplicaCountTransformer" then replicas_transform (pd_replicas d) m
+    else if String.eqb k "ImageTagTransformer" then images_transform (pd_images d) m
     else Ok m.
 
   (* runTransformers: configureBuiltinTransformers (every configurator runs first: a label field-spec merge
@@ -396,7 +459,8 @@ Section Pipeline.
     String.eqb (pd_ns d) "" && String.eqb (pd_prefix d) "" && String.eqb (pd_suffix d) "" &&
     match pd_labels d, pd_common_labels d, pd_common_annos d with [], [], [] => true | _, _, _ => false end &&
     match pd_cmgens d, pd_secgens d with [], [] => true | _, _ => false end &&
-    match pd_genopts d with None => true | Some _ => false end.
+    match pd_genopts d with None => true | Some _ => false end &&
+    match pd_replicas d, pd_images d with [], [] => true | _, _ => false end.
   Definition is_empty_kust (d : pdirs) (ents : list ptree) : bool :=
     match ents with [] => dirs_empty d | _ => false end.
 
